@@ -10,6 +10,7 @@ import (
 	"io/fs"
 	"os"
 	"path/filepath"
+	"sort"
 	"strconv"
 	"strings"
 )
@@ -20,11 +21,19 @@ import (
 // VERIF_YIELD_FINE=1 a yield is also put before every assignment whose
 // left-hand side is an index or selector expression. /repo itself is never
 // touched. Returns the number of sites and instrumented files.
-func injectYields(root string, fine bool) (int, int, error) {
+//
+// Goroutines that qframe itself starts are owned by the simulator as well:
+// `go func(...){...}(...)` becomes a call that registers the body as a new
+// simulated task (argument evaluation stays where it was), sync.WaitGroup
+// becomes a cooperative counter. Concurrency the simulator cannot own
+// (channels, select, sync.Cond, other forms of the go statement) is reported
+// in unsupported; the caller then falls back to operation granularity.
+func injectYields(root string, fine bool) (nsites int, nfiles int, unsupported []string, err error) {
 	var sites []string
 	files := 0
+	unsup := map[string]bool{}
 	skipDirs := map[string]bool{"cmd": true, "contrib": true, "verifhook": true, "simhook": true, "examples": true}
-	err := filepath.WalkDir(root, func(p string, d fs.DirEntry, err error) error {
+	err = filepath.WalkDir(root, func(p string, d fs.DirEntry, err error) error {
 		if err != nil {
 			return err
 		}
@@ -90,7 +99,9 @@ func injectYields(root string, fine bool) (int, int, error) {
 			if sel, ok := n.(*ast.SelectorExpr); ok {
 				if id, ok := sel.X.(*ast.Ident); ok && id.Name == "sync" && id.Obj == nil {
 					switch sel.Sel.Name {
-					case "Mutex", "RWMutex", "Once":
+					case "Cond", "NewCond":
+						unsup[fmt.Sprintf("%s:%d: sync.%s", rel, fset.Position(sel.Pos()).Line, sel.Sel.Name)] = true
+					case "Mutex", "RWMutex", "Once", "WaitGroup":
 						id.Name = "simhook"
 						usesSync = true
 						sites = append(sites, fmt.Sprintf("%s:%d(sync.%s)", rel, fset.Position(sel.Pos()).Line, sel.Sel.Name))
@@ -106,6 +117,69 @@ func injectYields(root string, fine bool) (int, int, error) {
 				Type:  &ast.SelectorExpr{X: ast.NewIdent("sync"), Sel: ast.NewIdent("Locker")},
 			}}})
 		}
+		// goroutines started by the library
+		rewriteGo := func(list []ast.Stmt) {
+			for i, st := range list {
+				g, ok := st.(*ast.GoStmt)
+				if !ok {
+					continue
+				}
+				lit, ok := g.Call.Fun.(*ast.FuncLit)
+				if !ok {
+					continue // stays a go statement: reported below
+				}
+				sites = append(sites, fmt.Sprintf("%s:%d(go)", rel, fset.Position(g.Pos()).Line))
+				var inner ast.Stmt
+				if lit.Type.Results != nil && len(lit.Type.Results.List) > 0 {
+					inner = &ast.ExprStmt{X: &ast.CallExpr{Fun: &ast.FuncLit{Type: &ast.FuncType{Params: &ast.FieldList{}, Results: lit.Type.Results}, Body: lit.Body}}}
+					inner = &ast.BlockStmt{List: []ast.Stmt{inner}}
+				} else {
+					inner = lit.Body
+				}
+				thunk := &ast.FuncLit{Type: &ast.FuncType{Params: &ast.FieldList{}}, Body: inner.(*ast.BlockStmt)}
+				spawn := &ast.ExprStmt{X: &ast.CallExpr{
+					Fun:  &ast.SelectorExpr{X: ast.NewIdent("simhook"), Sel: ast.NewIdent("Go")},
+					Args: []ast.Expr{thunk},
+				}}
+				wrapper := &ast.FuncLit{Type: &ast.FuncType{Params: lit.Type.Params}, Body: &ast.BlockStmt{List: []ast.Stmt{spawn}}}
+				list[i] = &ast.ExprStmt{X: &ast.CallExpr{Fun: wrapper, Args: g.Call.Args, Ellipsis: g.Call.Ellipsis}}
+			}
+		}
+		ast.Inspect(f, func(n ast.Node) bool {
+			switch s := n.(type) {
+			case *ast.BlockStmt:
+				rewriteGo(s.List)
+			case *ast.CaseClause:
+				rewriteGo(s.Body)
+			case *ast.CommClause:
+				rewriteGo(s.Body)
+			}
+			return true
+		})
+		ast.Inspect(f, func(n ast.Node) bool {
+			where := func(p token.Pos, what string) {
+				unsup[fmt.Sprintf("%s:%d: %s", rel, fset.Position(p).Line, what)] = true
+			}
+			switch s := n.(type) {
+			case *ast.GoStmt:
+				where(s.Pos(), "go statement that is not a function literal")
+			case *ast.ChanType:
+				where(s.Pos(), "channel")
+			case *ast.SendStmt:
+				where(s.Pos(), "channel send")
+			case *ast.SelectStmt:
+				where(s.Pos(), "select")
+			case *ast.UnaryExpr:
+				if s.Op == token.ARROW {
+					where(s.Pos(), "channel receive")
+				}
+			case *ast.ImportSpec:
+				if strings.Contains(s.Path.Value, "errgroup") || strings.Contains(s.Path.Value, "semaphore") {
+					where(s.Pos(), "import "+s.Path.Value)
+				}
+			}
+			return true
+		})
 		ast.Inspect(f, func(n ast.Node) bool {
 			switch s := n.(type) {
 			case *ast.ForStmt:
@@ -153,12 +227,16 @@ func injectYields(root string, fine bool) (int, int, error) {
 		return os.WriteFile(p, buf.Bytes(), 0o644)
 	})
 	if err != nil {
-		return 0, 0, err
+		return 0, 0, nil, err
 	}
+	for u := range unsup {
+		unsupported = append(unsupported, u)
+	}
+	sort.Strings(unsupported)
 	// the hook package (exists in the scratch copy only)
 	dir := filepath.Join(root, "simhook")
 	if err := os.MkdirAll(dir, 0o755); err != nil {
-		return 0, 0, err
+		return 0, 0, nil, err
 	}
 	var sb strings.Builder
 	sb.WriteString("// Package simhook is generated into the scratch copy of qframe by vcheck.\npackage simhook\n\n")
@@ -171,9 +249,9 @@ func injectYields(root string, fine bool) (int, int, error) {
 	}
 	sb.WriteString("}\n")
 	if err := os.WriteFile(filepath.Join(dir, "simhook.go"), []byte(sb.String()), 0o644); err != nil {
-		return 0, 0, err
+		return 0, 0, nil, err
 	}
-	return len(sites), files, nil
+	return len(sites), files, unsupported, nil
 }
 
 // coopSync is the cooperative replacement of the blocking sync types: waiting
@@ -264,6 +342,43 @@ func (o *Once) Do(f func()) {
 	o.running = true
 	Held++
 	defer func() { o.running, o.done = false, true; Held-- }()
+	f()
+}
+
+// WaitGroup replaces sync.WaitGroup: Wait parks the task until the counter is zero.
+type WaitGroup struct{ n int }
+
+func (w *WaitGroup) Add(d int) {
+	w.n += d
+	if w.n < 0 {
+		panic("sync: negative WaitGroup counter")
+	}
+}
+func (w *WaitGroup) Done() { w.Add(-1) }
+func (w *WaitGroup) Wait() {
+	for w.n > 0 {
+		waitUntil(func() bool { return w.n <= 0 })
+	}
+}
+func (w *WaitGroup) Go(f func()) {
+	w.Add(1)
+	Go(func() {
+		defer w.Done()
+		f()
+	})
+}
+
+// Spawn is installed by the engine: it registers f as a new simulated task
+// (the scheduler decides when it runs). Without a scheduler the body runs at
+// once, which is one of the legal schedules.
+var Spawn func(f func())
+
+// Go replaces the go statement in the scratch copy.
+func Go(f func()) {
+	if Spawn != nil {
+		Spawn(f)
+		return
+	}
 	f()
 }
 
